@@ -398,7 +398,10 @@ def check(run: Run):
     logids = ["l1"]
     with Scratch("C13") as scratch:
         stats = {}
-        total = None if tier == "thorough" else int(os.environ.get("VERIF_C13_BUDGET", "9000"))
+        # thorough: the three-identifier instantiations have ~1e5 transitions each and three passes; replaying all of them
+        # takes about 100 minutes, so the thorough tier is budgeted too (about 7x the quick budget, stratified by action, the first
+        # levels complete); VERIF_C13_BUDGET=0 removes the budget.  The one-identifier instantiation is always exhaustive.
+        total = int(os.environ.get("VERIF_C13_BUDGET", "60000" if tier == "thorough" else "9000")) or None
         for ci, cfg in enumerate(cfgs):
             recs, res = model(run, cfg, scratch, f"emit{ci}.ndjson")
             ids = sorted(recs[0]["from"]["comp"])
@@ -432,7 +435,7 @@ def check(run: Run):
         "every transition (state,label) of the exhaustive DataStore model reachable by the real store, "
         "x {directory, sqlite} x {observe at end, observe after every step}; distinct = distinct (state,label,variant)"
     )
-    run.cov["exhaustive"] = tier == "thorough" or all(s["skipped_by_budget"] == 0 for s in stats.values())
+    run.cov["exhaustive"] = all(s["skipped_by_budget"] == 0 for s in stats.values())
     run.cov["evaluations"] = run.cov["traces_validated_against_impl"]
     run.cov["distinct_nontrivial"] = run.cov["traces_validated_against_impl"]
     run.assumptions += [
